@@ -38,6 +38,9 @@ CHECKS = {
  "C09": ("A", "model_checking", A_TECH + "genesis export/validate/import/re-export round trip on every distinct state",
          "On every distinct state of a boundary-input alphabet (equal dates, epoch and pre-1970 dates, maximal lengths, public resolvers, zero fees) and of the core/market/basket alphabets: ExportGenesis of both modules, the modules' ValidateGenesis, InitGenesis into a fresh chain, byte-identical re-export, registered invariants on the imported chain.",
          "§7 C09", TRUST + " Two recorded findings (known_findings.txt) are printed as KNOWN-FINDING."),
+ "C10": ("C", "model_checking", "exhaustive ABCI trace enumeration x all restart subsets x fresh-process restarts x deviation-bounded map-order/clock schedules (source-rewriting shim), observations compared byte for byte",
+         "All traces of B blocks with <= M single-message transactions over a mixed success/failure alphabet are executed through baseapp's real InitChain/BeginBlock/DeliverTx/EndBlock/Commit; per trace every non-empty subset of block boundaries tears down and rebuilds all application objects over the same database, a subset of traces runs every block in a fresh OS process (resets package-level state), the trace with failed transactions deleted must give identical hashes and results, and in an overlay build generated from the working tree every dynamic map-range instance of regen code is permuted (<=1 deviating instance quick, <=2 thorough) and the wall clock is moved; AppHash, tx results (code, gas, data, log, events), begin-block events and invariant outputs must be identical.",
+         "§5, §7 C10", "Trusted base: Go, cosmos-sdk/baseapp/ORM/IAVL (not rewritten), cometbft-db MemDB. The in-process repetition only samples Go's map randomisation and is a cross-check, not the deciding step."),
  "C11": ("A", "model_checking", A_TECH + "admission iff-oracle and oldest-first drain oracle on every Put/Take",
          "Six baskets (every date-criteria variant, auto-retire on/off) x batches with start dates on, 1 ns/1 s before and after each boundary (epoch and pre-1970 included, ties, denom order != date order) x block-time steps and governance updates of the criteria: Put succeeds iff the oracle's admission predicate holds; Take equals the oracle's oldest-first drain; auto-retire baskets deliver retired credits.",
          "§7 C11", TRUST + " Alphabet bound: amounts below 34 significant digits."),
@@ -56,6 +59,9 @@ CHECKS = {
  "C16": ("A", "model_checking", A_TECH + "ghost of first-anchor times / attestations / registrations, injected weak ID hashers",
          "Data-module alphabet (Anchor/Attest/DefineResolver/RegisterResolver, 6 content hashes, 3 signers, time steps) under the production hasher and under constant / few-output / repeating-byte digests with MinLength 1,4,8 built with the repository's own hasher constructor: ids of distinct IRIs differ and never change, first timestamps are permanent, registrations are never lost, only managers register to private resolvers.",
          "§7 C16", TRUST + " Uses the verif-tagged constructor hook."),
+ "C17": ("A", "model_checking", A_TECH + "on every distinct state all list and single-entity queries x filter arguments (present and near-miss) x page requests are enumerated against a brute-force filter of the primary-key scan",
+         "States of a populate alphabet from four seeds (one a module-validated genesis with prefix-related ids C01/C011, C10/C100, C01-001/C01-0011, r/r1; one with byte-prefix-related data ids under a weak hasher): 27 list queries and 14 single-entity queries of the four query services are called with every present and near-miss filter value and with nil paging, key walks (limit 1,2,3,N,N+1) and offset walks; results must equal the brute-force multiset, pages neither drop nor repeat, totals are correct where the PageRequest contract defines them.",
+         "§7 C17", TRUST + " Per-(query,argument) results are memoised on a content hash of the tables the handler reads. States with more than 100 matching rows are outside the bound."),
  "C18": ("A", "model_checking", "exhaustive product of accepted parameter configurations x user operations executed on the real handlers (two acceptance paths: governance messages, genesis validation+import)",
          "Every configuration of the parameter alphabet that a path accepts is followed by CreateClass, basket Create (several offers each), Sell+BuyDirect per allowed denom, Put+Take: operations whose preconditions hold must succeed without panic, creation fees are debited and burned exactly, underpaid/unfunded creations are rejected, no fee set => nothing charged.",
          "§7 C18", TRUST),
@@ -103,6 +109,8 @@ def main():
         "engines": [
             {"name": "A", "path": "harness/explore", "serves_properties": sorted(k for k, v in CHECKS.items() if "A" in v[0]),
              "kind_free_text": "explicit-state breadth-first model checker whose transition relation is the real regen-ledger modules + SDK bank/auth over IAVL; path replay on cache branches; full-state hashing"},
+            {"name": "C", "path": "harness/detc", "serves_properties": ["C10"],
+             "kind_free_text": "ABCI trace explorer: restart subsets, fresh-process restarts, map-order/clock schedules via a go build -overlay produced by tools/rewriter"},
             {"name": "B", "path": "harness/pure", "serves_properties": sorted(k for k, v in CHECKS.items() if "B" in v[0]),
              "kind_free_text": "bounded-exhaustive enumerators of pure functions (formats, IRIs, decimals, intertx) against independent references"},
         ],
